@@ -420,18 +420,37 @@ func (w FederatingWrappedCallbacks) follow(c context.Context, a vocab.ActivitySt
 		// response for delivery removes the hidden recipients of embedded
 		// values, and the Follow itself may still have to be forwarded as
 		// it was received.
+		//
+		// The copy goes through JSON: Serialize yields Go values (a
+		// map[string]string for a language map) where ToType expects what
+		// encoding/json yields.
+		var ft vocab.Type
 		fm, err := streams.Serialize(a)
-		if err != nil {
-			return err
-		}
-		ft, err := streams.ToType(c, fm)
-		if err != nil {
-			return fmt.Errorf("cannot copy the follow for the response: %v", err)
+		if err == nil {
+			var b []byte
+			if b, err = json.Marshal(fm); err == nil {
+				fm = nil
+				if err = json.Unmarshal(b, &fm); err == nil {
+					ft, err = streams.ToType(c, fm)
+				}
+			}
 		}
 		op := streams.NewActivityStreamsObjectProperty()
 		response.SetActivityStreamsObject(op)
-		if err := op.AppendType(ft); err != nil {
-			return err
+		if err == nil {
+			err = op.AppendType(ft)
+		}
+		if err != nil {
+			// The Follow cannot be copied (not every value this library
+			// reads is read back from its own serialized form): the
+			// response names it by its id instead.
+			followId, idErr := GetId(a)
+			if idErr != nil {
+				return idErr
+			}
+			op = streams.NewActivityStreamsObjectProperty()
+			response.SetActivityStreamsObject(op)
+			op.AppendIRI(followId)
 		}
 		// Add all actors on the original Follow to the 'to' property.
 		recipients := make([]*url.URL, 0)
